@@ -3,7 +3,6 @@ package c16
 import (
 	"flag"
 	"fmt"
-	"os"
 	"syscall"
 	"time"
 
@@ -27,30 +26,31 @@ func init() { cli.Register("c16-parked", parkedCmd) }
 // perturbation of the environment only; it is how a write inside a critical section is stretched
 // without a hook in the code.
 func slowStdout(chunk int, every time.Duration) error {
-	r, w, err := os.Pipe()
-	if err != nil {
+	// A raw, BLOCKING pipe: os.Pipe would put the descriptors into non-blocking mode, and that mode belongs to the
+	// open file description shared with fd 1 - the logger's writes would then fail with EAGAIN at once instead of
+	// waiting (which is what made this sink nearly ineffective before).
+	var p [2]int
+	if err := syscall.Pipe2(p[:], syscall.O_CLOEXEC); err != nil {
 		return err
 	}
 	const fSetPipeSz = 1031
-	if _, _, e := syscall.Syscall(syscall.SYS_FCNTL, w.Fd(), fSetPipeSz, 4096); e != 0 {
+	if _, _, e := syscall.Syscall(syscall.SYS_FCNTL, uintptr(p[1]), fSetPipeSz, 4096); e != 0 {
 		return e
 	}
-	if err := syscall.Dup3(int(w.Fd()), 1, 0); err != nil {
+	if err := syscall.Dup3(p[1], 1, 0); err != nil {
 		return err
 	}
-	// a second, non-blocking descriptor of the write end keeps the pipe topped up with padding
-	fill, err := syscall.Dup(int(w.Fd()))
+	// the padding that keeps the pipe full is written through a description of its own (re-opened through /proc),
+	// so that its non-blocking mode is not shared with fd 1
+	fill, err := syscall.Open(fmt.Sprintf("/proc/self/fd/%d", p[1]), syscall.O_WRONLY|syscall.O_NONBLOCK|syscall.O_CLOEXEC, 0)
 	if err != nil {
 		return err
 	}
-	if err := syscall.SetNonblock(fill, true); err != nil {
-		return err
-	}
-	pad := make([]byte, 64)
+	pad := make([]byte, 32)
 	for i := range pad {
 		pad[i] = '.'
 	}
-	pad[63] = '\n'
+	pad[len(pad)-1] = '\n'
 	go func() {
 		for {
 			for {
@@ -58,13 +58,13 @@ func slowStdout(chunk int, every time.Duration) error {
 					break
 				}
 			}
-			time.Sleep(every / 4)
+			time.Sleep(every / 8)
 		}
 	}()
 	go func() {
 		buf := make([]byte, chunk)
 		for {
-			if _, err := r.Read(buf); err != nil {
+			if _, err := syscall.Read(p[0], buf); err != nil {
 				return
 			}
 			time.Sleep(every)
@@ -123,7 +123,8 @@ func parkedCmd(args []string) error {
 		return err
 	}
 	if *slow {
-		if err := slowStdout(256, 2*time.Millisecond); err != nil {
+		// 128 bytes every 5 ms: a log line of 150-250 bytes waits for one or two drains, 5-10 ms
+		if err := slowStdout(128, 5*time.Millisecond); err != nil {
 			return fmt.Errorf("slow log sink: %v", err)
 		}
 	}
